@@ -507,6 +507,77 @@ class Verdict:
 
 
 CVC5_FIRST = False  # set per task (string-heavy obligations: cvc5 decides indexof / substr where z3 does not)
+ABSTRACT_STRINGS_FIRST = False  # set per task: try the query with every string term abstracted to an atom first
+
+
+def abstract_strings(formulas):
+    """Sound weakening of a query: every String-sorted term becomes an atom of an uninterpreted sort, functions and
+    predicates over strings become uninterpreted ones over that sort (congruence is kept, string theory is dropped;
+    str.len is first pushed through concatenations by the simplifier).  unsat of the result implies unsat of the
+    original."""
+    U = z3.DeclareSort("StrAtom")
+    atoms, funs, cache = {}, {}, {}
+
+    def atom(t):
+        k = t.get_id()
+        if k not in atoms:
+            atoms[k] = z3.Const("sa!%d" % len(atoms), U)
+        return atoms[k]
+
+    def ufun(name, *sorts):
+        key = (name,) + tuple(str(s) for s in sorts)
+        if key not in funs:
+            funs[key] = z3.Function("ab!" + name, *sorts)
+        return funs[key]
+
+    def strval(t):
+        """String-sorted term -> U term (applications of uninterpreted String->String functions keep their shape)."""
+        if z3.is_app(t) and t.decl().kind() == z3.Z3_OP_UNINTERPRETED and t.num_args() > 0 and \
+                all(c.sort() == z3.StringSort() for c in t.children()):
+            return ufun(t.decl().name(), *([U] * t.num_args()), U)(*[strval(c) for c in t.children()])
+        return atom(t)
+
+    def walk(t):
+        k = t.get_id()
+        if k in cache:
+            return cache[k]
+        r = _walk(t)
+        cache[k] = r
+        return r
+
+    def _walk(t):
+        if t.sort() == z3.StringSort():
+            return strval(t)
+        if not z3.is_app(t) or z3.is_quantifier(t):
+            return t
+        ch = t.children()
+        if not ch:
+            return t
+        has_str = any(c.sort() == z3.StringSort() for c in ch)
+        kind = t.decl().kind()
+        if has_str:
+            if kind == z3.Z3_OP_EQ:
+                return strval(ch[0]) == strval(ch[1])
+            if kind == z3.Z3_OP_DISTINCT:
+                return z3.Distinct(*[strval(c) for c in ch])
+            if kind == z3.Z3_OP_ITE:
+                return z3.If(walk(ch[0]), walk(ch[1]), walk(ch[2]))
+            args = [strval(c) if c.sort() == z3.StringSort() else walk(c) for c in ch]
+            if any(a.sort() not in (U, z3.IntSort(), z3.BoolSort(), z3.RealSort()) for a in args):
+                # e.g. a regular expression argument: the whole predicate becomes a boolean / integer atom
+                nm = "atom!%d" % t.get_id()
+                return z3.Const(nm, t.sort())
+            f = ufun(t.decl().name() + "/" + str(kind), *[a.sort() for a in args], t.sort())
+            return f(*args)
+        if t.sort().kind() in (z3.Z3_RE_SORT,):
+            return t
+        new = [walk(c) for c in ch]
+        try:
+            return t.decl()(*new)
+        except Exception:
+            return z3.Const("atom!%d" % t.get_id(), t.sort())
+
+    return [walk(z3.simplify(f)) for f in formulas]
 
 
 def discharge(pc_terms, goal, timeout_ms=10000, use_cvc5=True, extra_hyps=()):
@@ -528,6 +599,16 @@ def discharge(pc_terms, goal, timeout_ms=10000, use_cvc5=True, extra_hyps=()):
     for a in extra_hyps:
         s.add(a)
     s.add(z3.Not(g))
+    if ABSTRACT_STRINGS_FIRST:
+        try:
+            sa = z3.Solver()
+            sa.set("timeout", min(timeout_ms, 5000))
+            for f in abstract_strings(list(pc_terms) + list(extra_hyps) + [z3.Not(g)]):
+                sa.add(f)
+            if sa.check() == z3.unsat:
+                return Verdict("proved", "z3-" + z3.get_version_string() + "(strings abstracted)", time.time() - t0)
+        except z3.Z3Exception:
+            pass
     cvc5_said = None
     if CVC5_FIRST and use_cvc5:
         v, out = run_cvc5(s.to_smt2(), timeout_s=max(3, min(10, timeout_ms // 1000)), produce_model=False)
